@@ -328,7 +328,7 @@ def gen(rng, tier, index):
             accs.append(['copy_handle'] if r < 0.15 else ['release_oldest'] if r < 0.25
                         else gen_access(rng, n, kind))
         cases.append({'mode': 'default_dir', 'n': n, 'kind': kind, 'big': big,
-                      'nonevals': nonevals, 'accesses': accs})
+                      'nonevals': nonevals, 'accesses': accs, 'keep': rng.random() < 0.4})
     BIG[0] = False
     NONEVALS[0] = False
     return cases
@@ -686,7 +686,9 @@ def run_default_dir(case):
     directory = None
     try:
         up = make_upstream(n, kind)
-        ds = up.diskcache()
+        keep = bool(case.get('keep'))
+        # every argument at its default, or only `clear` given
+        ds = up.diskcache(clear=False) if keep else up.diskcache()
         directory = str(ds._cache.cache.directory)     # observation only
         if not os.path.isdir(directory):
             m.bad('directory_missing', 'directory_missing:default_dir',
@@ -715,7 +717,11 @@ def run_default_dir(case):
                       'access %s raised %s without any fault' % (acc, e.text))
         del handles[:]
         gc.collect()
-        if not m.violations and os.path.exists(directory):
+        if not m.violations and keep and not os.path.exists(directory):
+            m.bad('directory_removed', 'directory_removed:default_dir',
+                  'diskcache(clear=False): the directory the library chose (%s) vanished when '
+                  'the cache was released' % directory)
+        if not m.violations and not keep and os.path.exists(directory):
             m.bad('directory_not_cleared', 'directory_not_cleared:default_dir',
                   'diskcache() (clear=True by default): %s still exists after the last dataset '
                   'sharing the cache was released' % directory)
